@@ -53,6 +53,8 @@ type Op struct {
 	During   []uint64 // Delete: headers outside the range that handler 0 appended and synced in the middle of this deletion (recorded by Run; honoured when Config.Replay is set)
 	Rushed   bool     // Append: the next operation followed immediately (recorded; honoured when Config.Replay is set)
 	NoWait   bool     // Append: probed right after Sync without waiting for quiescence (recorded; honoured when Config.Replay is set)
+	WFails   []int    // Delete: the datastore write attempts with these indices, counted from the start of this DeleteRange call, fail (only the first such operation of a history is rendered as the faulty call of an [fcase])
+	Retry    bool     // Delete: the retry of the faulty tail-side / whole-store deletion right before it (oracle clause (c))
 }
 
 type Config struct {
@@ -89,6 +91,9 @@ type Result struct {
 	Rushed         int // appends immediately followed by the next operation
 	SyncProbes     int // probes taken right after Sync returned, without waiting for quiescence
 	CommitFailures int
+	FaultTerm      string // Coq [fcase] term (Oracle/StoreFault.v) when an operation had failing writes (Op.WFails); Term is empty then
+	WAttempts      int    // write attempts of the faulty DeleteRange
+	WFailed        int    // ... of which failed
 }
 
 type runner struct {
@@ -329,6 +334,7 @@ func Run(t *testing.T, rng *emit.Rand, cfg Config, maxOps int, gen Gen) Result {
 		var loglens []string
 		var script []Op // the operations as executed: with Config, enough to re-run the history (Scripted) and to shrink it
 		forceRestart := false
+		faultAt, faultHead, retryFlag := -1, "", false // index into steps of the faulty DeleteRange, its fields up to the log, whether the retry follows
 		for i := 0; i < maxOps; i++ {
 			var tl, hd uint64
 			if h, err := r.s.Head(ctx); err == nil {
@@ -379,6 +385,10 @@ func Run(t *testing.T, rng *emit.Rand, cfg Config, maxOps int, gen Gen) Result {
 					}
 				case Delete:
 					out.Deletes++
+					if op.Retry && tl != 0 && tl > op.From && tl < op.To {
+						op.From = tl // the retry starts at the tail the failed deletion left
+						script[len(script)-1].From = tl
+					}
 					fs := make([]string, len(op.Fails))
 					for j, f := range op.Fails {
 						fs[j] = fmt.Sprintf("(%d%%nat, %d, %s)", f.Handler, f.Height, emit.B(f.Panic))
@@ -401,9 +411,29 @@ func Run(t *testing.T, rng *emit.Rand, cfg Config, maxOps int, gen Gen) Result {
 							r.during = cand[at : at+k]
 						}
 					}
+					faulty := len(op.WFails) > 0 && faultAt < 0
+					var before, failedBefore int
+					if faulty {
+						// the attempt indices count from the start of the call: nothing of an earlier (rushed) Append is in flight
+						quiesce()
+						failedBefore = r.rec.Failed
+						before = r.rec.FailRelative(op.WFails)
+					}
 					c2, cancel := context.WithTimeout(ctx, time.Hour)
 					err := r.s.DeleteRange(c2, op.From, op.To)
 					cancel()
+					if faulty {
+						out.WAttempts, out.WFailed = r.rec.Attempts()-before, r.rec.Failed-failedBefore
+						r.rec.FailRelative(nil)
+						faultAt = len(steps)
+						ws := make([]string, len(op.WFails))
+						for j, i := range op.WFails {
+							ws[j] = emit.Nat(i)
+						}
+						faultHead = fmt.Sprintf("%d %d %d%%nat %s %s", op.From, op.To, cfg.NH, emit.List(fs), emit.List(ws))
+					} else if op.Retry && faultAt >= 0 && faultAt == len(steps)-1 {
+						retryFlag = true
+					}
 					if err != nil {
 						outc = "OFail"
 					} else {
@@ -468,6 +498,7 @@ func Run(t *testing.T, rng *emit.Rand, cfg Config, maxOps int, gen Gen) Result {
 			}()
 			// sometimes the next operation follows an Append immediately (no quiescence in between):
 			// the batch is then still in the writes queue when a Stop / DeleteRange / Append arrives
+			isFault := faultAt == len(steps) || (retryFlag && faultAt == len(steps)-1)
 			rush := op.Kind == Append && i < maxOps-1 && r.rng.Chance(30)
 			nowait := op.Kind == Append && !rush && cfg.FailHdrN == 0 && r.rng.Chance(45)
 			if cfg.Replay {
@@ -488,7 +519,7 @@ func Run(t *testing.T, rng *emit.Rand, cfg Config, maxOps int, gen Gen) Result {
 				out.SyncProbes++
 			} else if !rush {
 				quiesce()
-				if cfg.ProbeEvery || i == maxOps-1 || r.rng.Chance(60) {
+				if cfg.ProbeEvery || i == maxOps-1 || isFault || r.rng.Chance(60) {
 					probe = r.probe()
 				}
 			} else {
@@ -528,6 +559,17 @@ func Run(t *testing.T, rng *emit.Rand, cfg Config, maxOps int, gen Gen) Result {
 			t.Fatal("final stop 2:", err)
 		}
 		out.Term = fmt.Sprintf("SCase %d %s %s %s", cfg.Batch, emit.List(chainTerms), emit.List(steps), dump)
+		if faultAt >= 0 {
+			// SStep (IDelete ...) out log (Some (Probe ...))  ->  out, log, probe of the [fcase]
+			fs := steps[faultAt]
+			k := strings.Index(fs, ") O")
+			rest := fs[k+2:] // "OFail [..] (Some (Probe ..))"
+			j := strings.LastIndex(rest, "(Some (Probe ")
+			outLog, pr := rest[:j], rest[j+len("(Some "):len(rest)-1]
+			out.FaultTerm = fmt.Sprintf("FCase %s %d %s %s %s %s %s %s %s %s", emit.B(cfg.CtxDS), cfg.Batch, emit.List(chainTerms), emit.List(steps[:faultAt]),
+				faultHead, outLog, pr, emit.B(retryFlag), emit.List(steps[faultAt+1:]), dump)
+			out.Term = ""
+		}
 		out.Descr = map[string]any{"ctxds": cfg.CtxDS, "batch": cfg.Batch, "cache": cfg.Cache, "icache": cfg.ICache, "handlers": cfg.NH, "ops": descr,
 			"script": map[string]any{"cfg": cfg, "ops": script}}
 		out.NonTriv = out.Ops >= 3
